@@ -519,7 +519,12 @@ class SkyRegion(Region):
             between sky and pixel coordinates.
         """
         pixel_region = self.to_pixel(wcs)
-        pixcoord = PixCoord.from_sky(skycoord, wcs)
+        # convert the positions the way the region itself is converted
+        # (wcs.world_to_pixel keeps the pixel axis order of the WCS;
+        # PixCoord.from_sky reorders the pixel axes of a latitude-first
+        # WCS)
+        x, y = wcs.world_to_pixel(skycoord)
+        pixcoord = PixCoord(x, y)
         return pixel_region.contains(pixcoord)
 
     @abc.abstractmethod
